@@ -1079,6 +1079,9 @@ func main() {
 				if owner != "self" {
 					owner = "other:" + k.fam
 				}
+				if k.owner == "self" && len(r.sections) > 1 {
+					r.detail = append(r.detail, fmt.Sprintf("%d separate critical sections of %s touch the guarded fields (not atomic)", len(r.sections), k.mutex))
+				}
 				rows = append(rows, outRow{tname, fd.Name.Name, reported, owner, k.mutex, r.mode, r.reads, r.writes,
 					r.unlockedR, r.unlockedW, r.sharedW, len(r.sections), r.reacquire, r.condwait, q, r.detail})
 				n++
